@@ -57,7 +57,7 @@ def shards(tier):
     out = [{'kind': 'fd', 'n': 3000 if q else 60000} for _ in range(8)]
     out += [{'kind': 'async', 'n': 600 if q else 8000} for _ in range(2)]
     out += [{'kind': 'popen', 'n': 100 if q else 1200} for _ in range(3)]
-    out += [{'kind': 'pty', 'n': 100 if q else 1200} for _ in range(3)]
+    out += [{'kind': 'pty', 'n': 250 if q else 2500} for _ in range(3)]
     if not q:
         out = [{'kind': 'sweep', 'part': k, 'parts': 4} for k in range(4)] + out
     return out
@@ -75,12 +75,15 @@ def cases(draw, transports):
         data = text.encode(enc)
     except UnicodeEncodeError:
         data = text.encode(enc, 'replace')
+    junked = False
     if errors != 'strict' and draw(st.booleans()):
         pos = draw(st.integers(0, len(data)))
         junk = draw(st.sampled_from([b'\xff', b'\x80', b'\xc3', b'\xe2\x82', b'\xf0\x9f', b'\x00\xd8', b'\xfe\xff']))
         data = data[:pos] + junk + data[pos:]
+        junked = True
     n = len(data)
-    mode = draw(st.sampled_from(['sizes', 'sizes', 'maxread']))
+    # undecodable bytes matter most when every offset is a read boundary
+    mode = draw(st.sampled_from(['sizes', 'maxread', 'maxread'] if junked else ['sizes', 'sizes', 'maxread']))
     cuts = sorted(draw(st.lists(st.integers(0, n), min_size=0, max_size=3)))
     return {'enc': enc, 'errors': errors, 'data': data, 'mode': mode, 'cuts': cuts,
             'maxread': draw(st.sampled_from([1, 1, 2, 3])), 'transport': draw(st.sampled_from(transports)),
